@@ -193,7 +193,8 @@ fn run_steps(m: u64, mode: u64, steps: &[RStep], only: Option<u64>) -> Vec<u64> 
                 match r {
                     Ok((mut o, _)) => {
                         if mode == 2 { if Some(idx) == last_ex { if let Some(x) = o.last_mut() { *x = 0; } out.push(o.len() as u64); out.extend(o); } }
-                        else if mode == 0 || mode == 3 || mode == 4 || after_sleep { out.push(o.len() as u64); out.extend(o); }
+                        else if mode == 4 { if let Some(x) = o.last_mut() { *x = 0; } out.push(o.len() as u64); out.extend(o); }
+                        else if mode == 0 || mode == 3 || after_sleep { out.push(o.len() as u64); out.extend(o); }
                     }
                     Err(_) => { out.push(2); out.push(9); out.push(0); return out; }
                 }
@@ -610,6 +611,14 @@ pub fn gen100(tier: &str, r: &mut Rng, emit: &mut dyn FnMut(Vec<u64>)) {
         let rp = Reply { code: 0x45, opts: vec![], body: r.bytes(3000) };
         emit(write_case(m, 2, &[Step::Ex(1, q.desc(), 77_777_777, rp)]));
     } } }
+    // a body of more than 65 536 blocks at the size the client named (1 MiB + 1 at 16 bytes): the handler still uses
+    // that size, even though the last blocks' numbers do not fit the option
+    for blen in [1048576usize, 1048577] {
+        let mut q = ReqSpec::get(&["huge"]); q.b2 = Some(bv(0, false, 0)); q.token = vec![1, 2, 3, 4];
+        // (a fixed pattern, so that the shared random stream of the later cases is what it was)
+        let rp = Reply { code: 0x45, opts: vec![], body: (0..blen).map(|i| (i * 31 + 7) as u8).collect() };
+        emit(write_case(64, 0, &[Step::Ex(1, q.desc(), 7, rp)]));
+    }
     // a request that ends an upload AND names a Block2 size for the (large) reply: the reply's block must not exceed it
     for _ in 0..(if thorough { 6_000 } else { 400 }) {
         let mut base = ReqSpec::get(&["u"]);
